@@ -42,6 +42,7 @@ thread_queue_acquire_spinlock_if_not_empty(thread_queue_t *p_queue,
     while (ABTD_spinlock_try_acquire(p_lock)) {
         /* Lock acquisition failed.  Check the size. */
         while (1) {
+            ABTI_VERIF_SPIN_HINT(ABTI_VERIF_SITE_QUEUE_LOCK, p_lock);
             if (ABTD_atomic_acquire_load_int(&p_queue->is_empty)) {
                 /* The pool becomes empty.  Lock is not taken. */
                 return 1;
